@@ -229,7 +229,7 @@ CHECKS = {
     "C09": {
         "bin": "c09",
         "crash_is_violation": True,
-        "quick": cfgs(["dflt", "fmt", "rdxfmt"]),
+        "quick": cfgs(["dflt", "fmt", "rdxfmt"]) + cfgs(["rdxfmt"], profile="reldbg"),
         "thorough": cfgs(["dflt", "cmp", "fmt", "rdxfmt", "cmprdxfmt"]) + cfgs(["fmt", "rdxfmt"], profile="reldbg"),
         "rule": "float values (every 32nd / 4th binade x 3 mantissa patterns, extremes, ~25 decimal landmarks with carries and long expansions, zero, every "
                 "5th negated) x formats (STANDARD, 6 decimal writer-flag formats, 7 radix writer-flag formats, every radix of the feature set, mixed-base "
